@@ -584,9 +584,32 @@ func checkPayload(c *collector, seq []pkt, st *stats) {
 func partPayloads(c *collector, maxN int) (stats, int) {
 	// chunk = first packet of the sequence (chunk 0 = the empty sequence)
 	na := len(payloadAlphabet)
-	return parallel(na+1, func(chunk int, st *stats) {
+	return parallel(na+2, func(chunk int, st *stats) {
 		if chunk == 0 {
 			checkPayload(c, []pkt{}, st)
+			return
+		}
+		if chunk == na+1 {
+			// text data with white space and control characters at its edges, as the only, the first and the
+			// last packet of a payload (a decoder that "normalises" the HTTP body shows here)
+			edge := []byte{'\n', '\r', '\t', ' ', 0x00, 0x1f, 0x7f, 'a'}
+			hello := pkt{4, false, []byte("hello")}
+			var datas [][]byte
+			for _, a := range edge {
+				datas = append(datas, []byte{a})
+				for _, b := range edge {
+					datas = append(datas, []byte{a, b}, []byte{a, 'x', b})
+				}
+			}
+			for _, d := range datas {
+				for _, typ := range []int{4, 2} {
+					p := pkt{typ, false, d}
+					checkPayload(c, []pkt{p}, st)
+					checkPayload(c, []pkt{hello, p}, st)
+					checkPayload(c, []pkt{p, hello}, st)
+					checkPayload(c, []pkt{p, p}, st)
+				}
+			}
 			return
 		}
 		var rec func(seq []pkt)
@@ -1079,7 +1102,7 @@ func main() {
 	r := vx.NewReport("C11", *tier, "exploration")
 	r.Rule = "exhaustive product enumeration, each case checked against reference encoders written from the Engine.IO v4 protocol text: " +
 		"(packet) 7 text types + binary message x every payload of length <= 2 over 256 byte values (text: without 0x1e) and pattern payloads of every length 3..4200 plus the neighbourhoods (+-5) of 8/16/32/48/64 KiB and 70000 x {binary supported, base64} (thorough: binary in base64 mode also every payload of length 3); " +
-		"(handshake) OPEN bodies; (payload) every sequence of 0..N packets over a 13-packet alphabet; (wt) every frame length in the tier's set x {binary, text} through send and nextPacket in the server (limited reader, delivered whole and in pieces: 12 single bytes, then 1021-byte chunks) and client compositions, each followed by a second frame; " +
+		"(handshake) OPEN bodies; (payload) every sequence of 0..N packets over a 13-packet alphabet, and text packets with white space / control characters at the edges of their data as the only, first and last packet; (wt) every frame length in the tier's set x {binary, text} through send and nextPacket in the server (limited reader, delivered whole and in pieces: 12 single bytes, then 1021-byte chunks) and client compositions, each followed by a second frame; " +
 		"(arbitrary) every byte string of length <= 2, length 3 (thorough: all, quick: every 251st) and 'b' + base64-directed strings into every decoder; (alloc) frame headers declaring more than the limit, in a memory-capped subprocess. " +
 		"Every case is generated once (distinct by construction); distinct_nontrivial counts the cases with a non-empty payload (packet), >= 2 packets (payload), frame length >= 1 (wt), non-empty input (arbitrary), and all handshake and alloc cases"
 	r.Assumptions = []string{
